@@ -976,3 +976,51 @@ def c15(p, tier, replay):
                           "BreakingChangeRejected for every chain; each chain is replayed with generated revisions of one exported trait through the real "
                           "savefile_abi::verify_compatiblity on a fresh directory, comparing Ok/Err of every run and the set of files left behind"}
     return v.finish("model_checking", cov, ["bounded universe of 10 revisions and chains of <= 3 runs", "directories start empty; 'populated' is reached by earlier runs of the chain"])
+
+# ------------------------------------------------------------------------------------------------
+# C09: ABI calls are transparent
+# ------------------------------------------------------------------------------------------------
+@prop("C09")
+def c09(p, tier, replay):
+    v = Verdict(p, tier)
+    recs = os.path.join(WORK, "abicall_%s.ndjson" % tier)
+    if replay:
+        open(recs, "w").write(json.dumps(json.load(open(replay))["record"]) + "\n")
+        stats = {"generated": 0, "distinct": 0}
+    else:
+        r = vlib.run_tlc("AbiCall.tla", "AbiCall_%s.cfg" % tier, "abicall_" + tier, workers=8, timeout=3000)
+        if r["violated"]:
+            raise ToolError("AbiCall: TLC reports a violation in the specification itself (see %s)" % r["out"])
+        stats = r["stats"]
+        if vlib.printed_json(r["out"], recs) == 0:
+            raise ToolError("AbiCall produced no behaviours")
+    binp = abi_build(tier, None, None)
+    res = recs + ".res"
+    vlib.run_bin(binp, ["calls", recs, res])
+    records = open(recs).read().splitlines()
+    n, nontrivial, samples, bufkinds = 0, 0, [], collections.Counter()
+    for line in open(res):
+        rr = json.loads(line)
+        rec = json.loads(records[rr["i"]]) if rr["i"] >= 0 else {"calls": [{"m": "66-method interface", "x": 0, "buf": ""}]}
+        n += 1
+        if len(rec["calls"]) >= 2:
+            nontrivial += 1
+        for c in rec["calls"]:
+            bufkinds[c["buf"]] += 1
+        if len(samples) < 3 and len(rec["calls"]) >= 2 and any(c["m"] in ("make_obj", "boxed_fn") for c in rec["calls"]):
+            samples.append(rec)
+        for f in rr["fails"]:
+            v.report(f["check"], {"t": None}, "calls %s :: %s" % ([(c["m"], c["x"]) for c in rec["calls"]], f["detail"][:300]), rec)
+    cov = {"states": stats["distinct"], "transitions": stats["generated"], "traces_validated_against_impl": 2 * n,
+           "evaluations": 2 * n, "distinct_nontrivial": nontrivial,
+           "rule": "every call sequence of AbiCall.tla up to MaxCalls calls over the menu (plain by-value / &str / slice / Vec<u8> of sizes straddling the 64-byte "
+                   "inline buffer / Result, boxed trait objects in both directions, &dyn Fn, &mut dyn FnMut, returned boxed closure, literal and formatted "
+                   "panics), each executed directly and through an AbiConnection; non-trivial = at least two calls",
+           "argument_buffer_kinds": dict(bufkinds), "samples": samples, "exhaustive": not replay,
+           "explanation": "TLC explores the call / ownership model (log of what the implementation observes, results the caller receives, owner and drop count of "
+                          "every object) proving DropExactlyOnce, HeldAlive and OneResultPerCall; each behaviour is executed twice on the real code - directly on "
+                          "the implementation and through AbiConnection::from_boxed_trait - and both executions must produce the model's log, results (incl. the "
+                          "panic message) and exactly one drop per object; plus an interface with 66 methods"}
+    return v.finish("model_checking", cov, [
+        "caller and implementation live in one process; boxed futures / async methods are exercised by C15's async revisions only at the definition level",
+        "memory safety of the generated trampolines is observed through functional symptoms only (results, drop counts)"])
